@@ -290,12 +290,17 @@ def valuations(j, rng, n):
         # distances and handedness are preserved
         if npts >= 4:
             cid = ("valuation", "distance-handedness")
-            Q = np.asarray(SE3(T) * P, dtype=float)
-            d0 = np.linalg.norm(P[:, 1:] - P[:, :1], axis=0)
-            d1 = np.linalg.norm(Q[:, 1:] - Q[:, :1], axis=0)
-            h0 = float(np.linalg.det(P[:, 1:4] - P[:, :1])) / mag ** 3
-            h1 = float(np.linalg.det(Q[:, 1:4] - Q[:, :1])) / mag ** 3
-            ok = float(np.max(np.abs(d0 - d1))) <= TOL * mag and abs(h0 - h1) <= 1e-6 * max(1.0, abs(h0))
+            try:
+                Q = np.asarray(SE3(T) * P, dtype=float)
+                if Q.shape != P.shape:
+                    raise ValueError("shape %s" % (Q.shape,))
+                d0 = np.linalg.norm(P[:, 1:] - P[:, :1], axis=0)
+                d1 = np.linalg.norm(Q[:, 1:] - Q[:, :1], axis=0)
+                h0 = float(np.linalg.det(P[:, 1:4] - P[:, :1])) / mag ** 3
+                h1 = float(np.linalg.det(Q[:, 1:4] - Q[:, :1])) / mag ** 3
+                ok = float(np.max(np.abs(d0 - d1))) <= TOL * mag and abs(h0 - h1) <= 1e-6 * max(1.0, abs(h0))
+            except Exception:  # noqa: BLE001  a result of the wrong shape (or no result) preserves nothing
+                ok = False
             if not ok:
                 j.fail("%s|SE3*|%s|distance-or-handedness-changed" % (PID, band), {"kind": "valuation", "T": T.tolist(), "P": P.tolist()}, cid)
             else:
